@@ -48,7 +48,7 @@ def run(ctx):
         exk = histories(ctx, 3, 4, "soa_kinds", kinds=ALLK)
         exh4 = histories(ctx, 4, 3, "soa_exh4")
         exb = histories(ctx, 3, 4, "soa_pairs", kinds=PAIRK)
-        sim = histories(ctx, 30, 8, "soa_sim", simulate=(3000, 32), kinds=ALLK8)     # 8000 x 32 with all range forms exhausts the heap
+        sim = histories(ctx, 30, 8, "soa_sim", simulate=(1500, 32), kinds=ALLK8)     # 8000 x 32 exhausts the heap; 3000 x 32 made the tier run 40-70 minutes
         plan = [("soa_exh", exh, "hsva,rgb,laba,oklch,luma,jmha"), ("soa_kinds", exk, "hsva,rgb"), ("soa_pairs", exb, "hsva,laba"), ("soa_exh4", exh4, "hsva"),
                 ("soa_sim", sim, "hsva,rgb,laba,oklch,luma,jmha")]
     total_h, nontrivial = 0, set()
